@@ -39,6 +39,7 @@ type cfg struct {
 	ExtraTelem  bool // telemetry batch carries other records around runtimeDone, and one batch without it
 	InitFail    bool // start-up path: server.Run fails
 	TelemFail   bool // start-up path: the server is healthy but the telemetry listener cannot be bound
+	BadSet      bool // the function also sends a set member that is not valid UTF-8 (a binary id) in every batch
 	SlowSub     bool // with InitFail: per-invocation flushing enabled and the telemetry subscription takes >= 100 ms
 }
 
@@ -46,7 +47,7 @@ func (c cfg) String() string {
 	if c.TelemFail {
 		return "telemetry-listener-fails"
 	}
-	return fmt.Sprintf("N%d-b%v-f%d-el%v-x%v-init%v-slowsub%v", c.Invocations, c.Batches, c.Failures, c.Elapsed, c.ExtraTelem, c.InitFail, c.SlowSub)
+	return fmt.Sprintf("N%d-b%v-f%d-el%v-x%v-init%v-slowsub%v", c.Invocations, c.Batches, c.Failures, c.Elapsed, c.ExtraTelem, c.InitFail, c.SlowSub) + map[bool]string{true: "-badset"}[c.BadSet]
 }
 
 type run struct {
@@ -127,7 +128,13 @@ func (a runtimeAPI) RoundTrip(req *http.Request) (*http.Response, error) {
 	case strings.HasSuffix(req.URL.Path, "/telemetry"):
 		r.event("telemetry-subscribe")
 		if r.subGate != nil {
-			vsched.Recv(r.subGate) // the subscription round trip is slow
+			// the subscription round trip is slow; like a real transport it is abandoned when its request's context ends
+			if vsched.Select(false, vsched.CaseRecv(r.subGate), vsched.CaseRecv(req.Context().Done())) == 1 {
+				vsched.SelRecv2(req.Context().Done())
+				r.event("telemetry-subscribe-abandoned")
+				return nil, req.Context().Err()
+			}
+			vsched.SelRecv(r.subGate)
 		}
 		return jsonResp(req, 200, `"OK"`, nil), nil
 	case strings.HasSuffix(req.URL.Path, "/extension/init/error"):
@@ -243,7 +250,7 @@ func body(c cfg, r *run) func(*vsched.Exec) {
 			// per-invocation flushing: the manager also subscribes to the telemetry API during start-up. The
 			// listener address cannot be bound in the sandbox, so the telemetry server thread fails too; either
 			// failure must be reported as an init error. The subscription is held while 100 ms pass.
-			r.subGate = make(chan struct{})
+			r.subGate = make(chan struct{}, 1) // buffered: an implementation that gives the subscription up must not wedge the harness
 			m := extension.VerifNew("lambda.invalid", runtimeAPI{r}, fx.Quiet(), failingServer{errors.New("bad configuration")}, flush.NewFlushCoordinator(), true)
 			var err error
 			done := false
@@ -305,6 +312,9 @@ func body(c cfg, r *run) func(*vsched.Exec) {
 					name := fmt.Sprintf("i%db%d", k, b)
 					mm := gostatsd.NewMetricMap(false)
 					mm.Receive(&gostatsd.Metric{Name: name, Type: gostatsd.COUNTER, Value: 1, Rate: 1, Timestamp: 5})
+					if c.BadSet {
+						mm.Receive(&gostatsd.Metric{Name: "ids", Type: gostatsd.SET, StringValue: "id\xff\xfe", Rate: 1, Timestamp: 5})
+					}
 					h.DispatchMetricMap(ctx, mm)
 					r.event("accepted " + name)
 					r.injected = append(r.injected, name)
@@ -370,6 +380,7 @@ func configs() []cfg {
 		{Invocations: 2, Batches: []int{2, 0}, Failures: 1, Elapsed: time.Second, ExtraTelem: true},
 		{Invocations: 1, Batches: []int{1}, Failures: 3, Elapsed: time.Second},
 		{Invocations: 2, Batches: []int{1, 1}, Failures: 1, Elapsed: -1},
+		{Invocations: 2, Batches: []int{1, 1}, Failures: 1, Elapsed: time.Second, BadSet: true},
 		{InitFail: true},
 		{InitFail: true, SlowSub: true},
 		{TelemFail: true},
